@@ -64,3 +64,8 @@ claim("C14", "other", "abstract evaluation of encoders/decoders over constants a
       "Decides byte-level conformance to the version-4 layout for all inputs: the layout evaluator replays every codec of the current source (item header, location, node record, root record writer and the three reader stages, item record placement) and the extracted (byte order, width, offset, field) tables must equal an independent v4 table kept in the checker, for both directions; plus Version == 4, the two magic strings assigned only by their initialisers, big-endian everywhere, keyPSize == 4, record-length constants, JSON form of locations, children-before-parent (O4) and the reader's validation atoms (O5). This catches exactly the symmetric edits (field order, width, endianness, magic, version) that round-trip tests cannot see. It does not decide that an independent decoder recovers the flushed state — that also needs C02 and C13.",
       "Trusted: go/ssa; the v4 table in rules_c14.go was written from the format description (README / property text), not derived from the code.",
       "DESIGN.md §4 C14")
+
+claim("C18", "other", "channel typestate rules + exhaustive exploration of the consumer x producer automata interpreted from the SSA; lock-free-callback rule",
+      "Decides: no gkvlite lock can be held at any visitor/comparator call or file sink and no mutex is re-acquired (the precondition of re-entrant use, L3/L2); the iterator's channel protocol (who may send/receive/close, close-once under the closed flag, ,ok on every receive with the closed outcome ending the conversation, deferred close-then-drain epilogue installed first, producer started with go, unbuffered channels); the producer's pin is released (P1); and I5 — the consumer (every sequence of Next/Close) and the producer goroutine are interpreted abstractly straight from their SSA and their finite product graph is explored completely: no deadlock, no send on a closed channel, no double close, producer always exits after Close or after Next answered false. The one modelled (not extracted) part is the visit machinery between the producer and its item callback (called any number of times, never after it returned false — C06 V2). Run-time goroutine exit under a real scheduler and abandonment without Close() are not decided.",
+      "Trusted: go/ssa; Go channel semantics as encoded in the interpreter (rendezvous, closed receive yields !ok, send/close on closed panics); C06 V2 for the visit machinery.",
+      "DESIGN.md §4 C18")
